@@ -101,16 +101,21 @@ def eitherClause (ms : List Member) : Bytes :=
       Bytes.trimSuffix (memberNames ms) (b! ", ") ++ [SP] ++ explainEn ++ b! " they shouldn't all be empty" ++ errEndFlag
     else []
 
+/-- `reflect.DeepEqual(a.Interface(), b.Interface())`: decided on scalars, a residual on composites -/
+def deepEq (ext : Ext) (a c : GoVal) : M Bool :=
+  match deepEqScalar a c with
+  | some r => pure r
+  | none => do
+    let ans ← askExt ext (.deepeq a.fp c.fp)
+    if ans.code == 2 then throw (.unmodelled "DeepEqual on composite values") else pure (ans.code == 1)
+
 /-- `bothEq(fieldInfos)` -/
-def bothEqClause (ms : List Member) : M Bytes :=
+def bothEqClause (ext : Ext) (ms : List Member) : M Bytes :=
   match ms with
   | [m] => pure (getJoinFieldErr m.objName m.fieldName bothEqValErr)
   | [] => pure []
   | m0 :: rest => do
-    let eqs ← rest.mapM fun m =>
-      match deepEqScalar m0.val m.val with
-      | some r => pure r
-      | none => throw (.unmodelled "DeepEqual on composite values")
+    let eqs ← rest.mapM fun m => deepEq ext m0.val m.val
     if eqs.all id then pure []
     else pure (Bytes.trimSuffix (memberNames ms) (b! ", ") ++ [SP] ++ explainEn ++ b! " they should be equal" ++ errEndFlag)
 
@@ -127,14 +132,14 @@ def groupMembers (ms : List Member) : List (List Member) :=
   (dedupKeys (ms.map Member.gkey)).map fun k => ms.filter fun m => m.gkey == k
 
 /-- `validCommon.valid`: one (possibly empty) text per group -/
-def groupClauses (ms : List Member) : M (List Bytes) :=
+def groupClauses (ext : Ext) (ms : List Member) : M (List Bytes) :=
   (groupMembers ms).mapM fun g =>
     match g with
     | [] => pure []
     | m :: _ =>
       let (key, _, _) := parseValidNameKV m.validName
       if key == eitherB then pure (eitherClause g)
-      else if key == bothEqB then bothEqClause g
+      else if key == bothEqB then bothEqClause ext g
       else pure []
 
 /-- result of a call: the buffer after the walk and the group clauses (whose mutual order is that of
@@ -151,8 +156,8 @@ def CallOut.err (o : CallOut) (order : List Bytes) : Option Bytes :=
 /-- an early `return errors.New(msg)` -/
 def earlyErr (msg : Bytes) : CallOut := { main := msg ++ errEndFlag, groups := [] }
 
-def finish (st : WSt) : M CallOut := do
-  pure { main := st.buf, groups := (← groupClauses st.members).filter (!·.isEmpty), marks := st.marks }
+def finish (ext : Ext) (st : WSt) : M CallOut := do
+  pure { main := st.buf, groups := (← groupClauses ext st.members).filter (!·.isEmpty), marks := st.marks }
 
 /-! ## struct walker -/
 
@@ -344,10 +349,10 @@ def structValid (cfg : StructCfg) (src : Src) : M CallOut :=
   | .val tstr v =>
     match v.stripPtr with
     | none => pure (earlyErr (b! "src \"" ++ tstr ++ b! "\" is nil"))
-    | some (.slice _ elemT _ es) => do finish (← elemsLoop cfg elemT 0 es {})
-    | some (.array _ elemT es) => do finish (← elemsLoop cfg elemT 0 es {})
-    | some (.map _ _ _ es) => do finish (← entriesLoop cfg (b! "map[") es (({} : WSt).mark 0))
-    | some rv => do finish (← validate cfg [] rv false {})
+    | some (.slice _ elemT _ es) => do finish cfg.ext (← elemsLoop cfg elemT 0 es {})
+    | some (.array _ elemT es) => do finish cfg.ext (← elemsLoop cfg elemT 0 es {})
+    | some (.map _ _ _ es) => do finish cfg.ext (← entriesLoop cfg (b! "map[") es (({} : WSt).mark 0))
+    | some rv => do finish cfg.ext (← validate cfg [] rv false {})
 
 /-! ### `Var` -/
 
@@ -489,9 +494,9 @@ def mapValid (ext : Ext) (fns : FnTables) (rm : RM) (src : Src) : M CallOut :=
                            requiredViolated := fun v => v.isZero, isEmpty := fun v => v.isZero }
       match v.stripPtr with
       | none => pure (earlyErr (b! "src \"" ++ tstr ++ b! "\" is nil"))
-      | some (.slice _ _ _ es) => do finish (← mapElems c rm 0 es {})
-      | some (.array _ _ es) => do finish (← mapElems c rm 0 es {})
-      | some tv => do finish (← mapValidate c rm [] tv {})
+      | some (.slice _ _ _ es) => do finish ext (← mapElems c rm 0 es {})
+      | some (.array _ _ es) => do finish ext (← mapElems c rm 0 es {})
+      | some tv => do finish ext (← mapValidate c rm [] tv {})
 
 /-! ### `Url` -/
 
@@ -537,7 +542,7 @@ def urlValid (ext : Ext) (fns : FnTables) (rm : RM) (src : UrlSrc) : M CallOut :
     match queryUnescape s with
     | none => do
       let t ← askExt ext (.unescapeerr s)     -- residual: text of url.EscapeError
-      finish (({} : WSt).write (getJoinFieldErr [] [] (b! "url unescape is failed, err: " ++ t.text)))
+      finish ext (({} : WSt).write (getJoinFieldErr [] [] (b! "url unescape is failed, err: " ++ t.text)))
     | some dec =>
       let query : Bytes := match Bytes.indexByte? 63 dec with
         | some i => dec.drop (i + 1)
@@ -548,6 +553,6 @@ def urlValid (ext : Ext) (fns : FnTables) (rm : RM) (src : UrlSrc) : M CallOut :
                            requiredViolated := fun v => v.isZero, isEmpty := fun v => v.isZero }
       do
         let st0 := ({} : WSt).write (missingClauses rm present id)
-        finish (← urlParams c rm params st0)
+        finish ext (← urlParams c rm params st0)
 
 end PGV.Model
